@@ -3,6 +3,7 @@ package props
 import (
 	"fmt"
 	"go/ast"
+	"go/token"
 	"strings"
 
 	"octoverif/core"
@@ -320,6 +321,48 @@ func checkJoinPhase(c *core.Ctx) {
 				}
 				return true
 			})
+			// the "don't store my records any more" flag handed to the flush is false or the variable that only
+			// markOneStreamRemains sets: a literal true would skip storing records the finished side's buffered records still have to meet
+			nCalls, badArg := 0, ""
+			ast.Inspect(fn.Decl.Body, func(nd ast.Node) bool {
+				if call, ok := nd.(*ast.CallExpr); ok && core.ExprStr(call.Fun) == "processRecordsUpTo" && len(call.Args) == 3 {
+					nCalls++
+					if a := core.ExprStr(call.Args[2]); a != "false" && a != "oneStreamRemains" {
+						badArg = fmt.Sprintf("%s passes %s", c.Prog.Pos(call.Pos()), a)
+					}
+				}
+				return true
+			})
+			nSet, setOutside := 0, ""
+			core.WalkStack(fn.Decl.Body, func(nd ast.Node, stack []ast.Node) bool {
+				as, ok := nd.(*ast.AssignStmt)
+				if !ok || len(as.Lhs) != 1 || core.ExprStr(as.Lhs[0]) != "oneStreamRemains" {
+					return true
+				}
+				if as.Tok == token.DEFINE && core.ExprStr(as.Rhs[0]) == "false" {
+					return true
+				}
+				nSet++
+				inMark := false
+				for i := len(stack) - 1; i >= 0; i-- {
+					if fl, ok := stack[i].(*ast.FuncLit); ok {
+						// the literal assigned to markOneStreamRemains
+						if i > 0 {
+							if pas, ok := stack[i-1].(*ast.AssignStmt); ok && len(pas.Lhs) == 1 && core.ExprStr(pas.Lhs[0]) == "markOneStreamRemains" && pas.Rhs[0] == ast.Expr(fl) {
+								inMark = true
+							}
+						}
+						break
+					}
+				}
+				if !inMark {
+					setOutside = c.Prog.Pos(as.Pos())
+				}
+				return true
+			})
+			c.Decide(nCalls >= 5 && badArg == "" && nSet >= 1 && setOutside == "", "PHASE", key+"/store flag", fn.Decl.Pos(), nCalls+nSet,
+				"every flush passes `false` or the flag that only markOneStreamRemains raises",
+				fmt.Sprintf("a flush may skip storing records in their own tree only once the finished side's buffer is empty: %s %s (calls=%d, sets=%d)", badArg, setOutside, nCalls, nSet))
 			c.Decide(n >= 2 && n == guarded, "PHASE", key+"/drop own tree", fn.Decl.Pos(), n, "own records stop being stored only once the finished side's buffer is empty", fmt.Sprintf("markOneStreamRemains must only run under `if otherRecordBuffer.Empty()` (%d of %d calls are)", guarded, n))
 		}
 	}
